@@ -47,7 +47,7 @@ pub(crate) struct Table<P, T>(UnsafeCell<Vec<Node<P, T>>>);
 //   of any other TrieView or TrieViewMut that overlaps with that sub-tree.
 // The same argument holds for Sync.
 unsafe impl<P: Send, T: Send> Send for Table<P, T> {}
-unsafe impl<P: Sync, T: Sync> Sync for Table<P, T> {}
+unsafe impl<P: Sync, T: Send + Sync> Sync for Table<P, T> {}
 
 impl<P, T> AsRef<Vec<Node<P, T>>> for Table<P, T> {
     fn as_ref(&self) -> &Vec<Node<P, T>> {
